@@ -182,6 +182,38 @@ theorem same_field : ∀ (fs : List Field), fs.Pairwise (fun a b => a.id ≠ b.i
     · exact absurd (hb ▸ hid.symm) (hp.1 a ha)
     · exact ih hp.2 a b ha hb hid
 
+theorem same_key {α : Type} (key : α → Int) : ∀ (l : List α), l.Pairwise (fun a b => key a ≠ key b) → ∀ a b, a ∈ l → b ∈ l → key a = key b → a = b := by
+  intro l
+  induction l with
+  | nil => intro _ a b ha; cases ha
+  | cons x l ih =>
+    intro hpw a b ha hb hid
+    have hp := List.pairwise_cons.mp hpw
+    rcases List.mem_cons.mp ha with ha | ha <;> rcases List.mem_cons.mp hb with hb | hb
+    · rw [ha, hb]
+    · exact absurd (ha ▸ hid) (hp.1 b hb)
+    · exact absurd (hb ▸ hid.symm) (hp.1 a ha)
+    · exact ih hp.2 a b ha hb hid
+
+theorem find_unique_key {α : Type} (key : α → Int) (l : List α) (hpw : l.Pairwise (fun a b => key a ≠ key b)) (x : α) (hm : x ∈ l)
+    (q : α → Bool) (hq : q x = true) (hqid : ∀ y, q y = true → key y = key x) : l.find? q = some x := by
+  induction l with
+  | nil => cases hm
+  | cons a rest ih =>
+    have hp := List.pairwise_cons.mp hpw
+    by_cases ha : a = x
+    · subst ha; simp [List.find?, hq]
+    · have hmr : x ∈ rest := by
+        rcases List.mem_cons.mp hm with h | h
+        · exact absurd h.symm ha
+        · exact h
+      have hqa : q a = false := by
+        cases hqa : q a with
+        | false => rfl
+        | true => exact absurd (hqid a hqa) (hp.1 x hmr)
+      simp only [List.find?, hqa]
+      exact ih hp.2 hmr
+
 /-! ### `finish`, generically -/
 
 theorem finish_mem : ∀ (fs : List Field) (slots out : List (Int × TVal)), finish fs slots = .ok out →
